@@ -3,11 +3,40 @@
 import ast
 
 from . import dispatch
+from . import kernels as K
 from .assemblers import SPARSE_KERNEL_SIG
 from .core import AnalysisError
 from .src import arg_names, unparse
 
 NK = "bempp_cl/core/numba_kernels.py"
+
+
+def mode_problems(ctx):
+    """Per mode, what is wrong with the pair select_numba_kernels returns (names of the local dicts play no part):
+    subscripts by assembly_type / kernel_type of the descriptor; every mode its own assembler registry; regular,
+    singular and sparse their own kernel registry; potential the kernel registry of regular."""
+    fn = ctx.repo.mod(NK).fn("select_numba_kernels")
+    D = arg_names(fn)[0]
+    roles = K.registry_roles(ctx)
+    probs = {m: [] for m in roles}
+    for m, (a, k, sa_, sk) in roles.items():
+        if sa_ != D + ".assembly_type":
+            probs[m].append("mode %r indexes its assembler registry by `%s`, expected the descriptor's assembly_type" % (m, sa_))
+        if sk != D + ".kernel_type":
+            probs[m].append("mode %r indexes its kernel registry by `%s`, expected the descriptor's kernel_type" % (m, sk))
+        for m2, (a2, k2, _, _) in roles.items():
+            if m2 == m:
+                continue
+            if a2 == a:
+                probs[m].append("modes %r and %r return their assembler from the same registry `%s`" % (m, m2, a))
+            if k2 == k and {m, m2} != {"regular", "potential"}:
+                probs[m].append("modes %r and %r return their kernel from the same registry `%s`" % (m, m2, k))
+        if a == k:
+            probs[m].append("mode %r returns assembler and kernel from the same registry `%s`" % (m, a))
+    if roles["potential"][1] != roles["regular"][1]:
+        for m in ("regular", "potential"):
+            probs[m].append("mode 'potential' takes its kernel from `%s`, mode 'regular' from `%s`: boundary operator and potential no longer evaluate the same Green's function object" % (roles["potential"][1], roles["regular"][1]))
+    return probs
 
 
 def select_modes(ctx):
@@ -16,17 +45,9 @@ def select_modes(ctx):
     fn = ctx.repo.mod(NK).fn("select_numba_kernels")
     p = arg_names(fn)
     D, M = p[0], p[1]
-    want = {
-        "regular": ("assembly_functions_regular", "kernel_functions_regular"),
-        "singular": ("assembly_functions_singular", "kernel_functions_singular"),
-        "sparse": ("assembly_functions_sparse", "kernel_functions_sparse"),
-        "potential": ("assembly_function_potential", "kernel_functions_regular"),
-    }
-    for mode, (a, k) in want.items():
-        kind, node = dispatch.select(fn, {M: mode})
-        got = [unparse(e).replace(" ", "") for e in node.elts] if kind == "return" and isinstance(node, ast.Tuple) else None
-        exp = ["%s[%s.assembly_type]" % (a, D), "%s[%s.kernel_type]" % (k, D)]
-        r.check(got == exp, "mode " + mode, NK, fn.name, fn.lineno, "kernel selection for mode " + mode, "mode %r returns %s, expected %s" % (mode, got, exp))
+    probs = mode_problems(ctx)
+    for mode in K.ROLE_NAMES:
+        r.check(not probs[mode], "mode " + mode, NK, fn.name, fn.lineno, "kernel selection for mode " + mode, "; ".join(probs[mode]))
     kind, node = dispatch.select(fn, {M: "collocation"})
     r.check(kind == "raise", "unknown mode", NK, fn.name, fn.lineno, "kernel selection for an unknown mode", "an unknown mode is not rejected")
 
